@@ -923,6 +923,100 @@ impl<R: Read> Deserializer<R> {
 //@@ end
 }
 
+
+pub open spec fn sp_be16(b: Seq<u8>) -> u16 { ((b[0] as u16) << 8 | (b[1] as u16)) as u16 }
+#[verifier::external_body] pub fn u16_from_be(b: [u8; 2]) -> (r: u16) ensures r == sp_be16(b@) { u16::from_be_bytes(b) }
+#[verifier::external_body] pub fn i16_from_be(b: [u8; 2]) -> (r: i16) ensures r == sp_be16(b@) as i16 { i16::from_be_bytes(b) }
+#[verifier::external_body] pub fn i32_from_be(b: [u8; 4]) -> (r: i32) ensures r == sp_be32(b@) as i32 { i32::from_be_bytes(b) }
+#[verifier::external_body] pub fn i64_from_be(b: [u8; 8]) -> (r: i64) ensures r == sp_be64(b@) as i64 { i64::from_be_bytes(b) }
+pub open spec fn dec_i64(u: Seq<u8>) -> Option<(i64, int)> {
+    if u.len() >= 2 && u[0] == 0x55 { Some((u[1] as i8 as i64, 2int)) }
+    else if u.len() >= 9 && u[0] == 0x81 { Some((sp_be64(u.subrange(1, 9)) as i64, 9int)) }
+    else { None }
+}
+pub open spec fn dec_i32(u: Seq<u8>) -> Option<(i32, int)> {
+    if u.len() >= 2 && u[0] == 0x54 { Some((u[1] as i8 as i32, 2int)) }
+    else if u.len() >= 5 && u[0] == 0x71 { Some((sp_be32(u.subrange(1, 5)) as i32, 5int)) }
+    else { None }
+}
+pub open spec fn dec_i16(u: Seq<u8>) -> Option<(i16, int)> { if u.len() >= 3 && u[0] == 0x61 { Some((sp_be16(u.subrange(1, 3)) as i16, 3int)) } else { None } }
+pub open spec fn dec_u16(u: Seq<u8>) -> Option<(u16, int)> { if u.len() >= 3 && u[0] == 0x60 { Some((sp_be16(u.subrange(1, 3)), 3int)) } else { None } }
+pub open spec fn dec_i8(u: Seq<u8>) -> Option<(i8, int)> { if u.len() >= 2 && u[0] == 0x51 { Some((u[1] as i8, 2int)) } else { None } }
+
+impl<R: Read> Deserializer<R> {
+//@@ fn file=serde_amqp/src/de.rs impl=`impl<'de, R: Read<'de>> Deserializer<R>` name=parse_i64
+//@@ qmark
+//@@ blockarms
+//@@ subst `|| Error::unexpected_eof("parse_i64")` => `|| -> (o: Error) { Error::unexpected_eof("parse_i64") }` rule=R18
+//@@ subst `self .reader .read_const_bytes() .map(i64::from_be_bytes) .map_err(Into::into)` => `(match self.reader.read_const_bytes() { Ok(b) => Ok(i64_from_be(b)), Err(e) => Err(e.err_into()) })` rule=R19
+//@@ subst `self.reader.next().map_err(Into::into).and_then(|b| { b.map(|signed| signed as i8 as i64) .ok_or_else(|| Error::unexpected_eof("Expecting i64")) })` => `(match self.reader.next() { Ok(Some(signed)) => Ok(signed as i8 as i64), Ok(None) => Err(Error::unexpected_eof("Expecting i64")), Err(e) => Err(e.err_into()) })` rule=R19
+//@@ spec
+    requires bounded(old(self).reader),
+    ensures
+        final(self).reader.wf(), final(self).elem_format_code == old(self).elem_format_code,
+        r is Ok ==> dec_i64(eff_unread(*old(self))) is Some && dec_i64(eff_unread(*old(self)))->Some_0.0 == r->Ok_0
+            && final(self).reader.unread() =~= eff_unread(*old(self)).skip(dec_i64(eff_unread(*old(self)))->Some_0.1),        // [C05.long.decoding] [C03.rt.decoder-premise]
+        old(self).reader.reliable() && dec_i64(eff_unread(*old(self))) is Some ==> r is Ok,                                     // [C05.long.every-variant-accepted]
+//@@ end
+
+//@@ fn file=serde_amqp/src/de.rs impl=`impl<'de, R: Read<'de>> Deserializer<R>` name=parse_i32
+//@@ qmark
+//@@ blockarms
+//@@ subst `|| Error::unexpected_eof("parse_i32")` => `|| -> (o: Error) { Error::unexpected_eof("parse_i32") }` rule=R18
+//@@ subst `self .reader .read_const_bytes() .map(i32::from_be_bytes) .map_err(Into::into)` => `(match self.reader.read_const_bytes() { Ok(b) => Ok(i32_from_be(b)), Err(e) => Err(e.err_into()) })` rule=R19
+//@@ subst `self.reader.next().map_err(Into::into).and_then(|b| { b.map(|signed| signed as i8 as i32) .ok_or_else(|| Error::unexpected_eof("Expecting i32")) })` => `(match self.reader.next() { Ok(Some(signed)) => Ok(signed as i8 as i32), Ok(None) => Err(Error::unexpected_eof("Expecting i32")), Err(e) => Err(e.err_into()) })` rule=R19
+//@@ spec
+    requires bounded(old(self).reader),
+    ensures
+        final(self).reader.wf(), final(self).elem_format_code == old(self).elem_format_code,
+        r is Ok ==> dec_i32(eff_unread(*old(self))) is Some && dec_i32(eff_unread(*old(self)))->Some_0.0 == r->Ok_0
+            && final(self).reader.unread() =~= eff_unread(*old(self)).skip(dec_i32(eff_unread(*old(self)))->Some_0.1),        // [C05.int.decoding] [C03.rt.decoder-premise]
+        old(self).reader.reliable() && dec_i32(eff_unread(*old(self))) is Some ==> r is Ok,                                     // [C05.int.every-variant-accepted]
+//@@ end
+
+//@@ fn file=serde_amqp/src/de.rs impl=`impl<'de, R: Read<'de>> Deserializer<R>` name=parse_i16
+//@@ qmark
+//@@ blockarms
+//@@ subst `|| Error::unexpected_eof("parse_i16")` => `|| -> (o: Error) { Error::unexpected_eof("parse_i16") }` rule=R18
+//@@ subst `self .reader .read_const_bytes() .map(i16::from_be_bytes) .map_err(Into::into)` => `(match self.reader.read_const_bytes() { Ok(b) => Ok(i16_from_be(b)), Err(e) => Err(e.err_into()) })` rule=R19
+//@@ spec
+    requires bounded(old(self).reader),
+    ensures
+        final(self).reader.wf(), final(self).elem_format_code == old(self).elem_format_code,
+        r is Ok ==> dec_i16(eff_unread(*old(self))) is Some && dec_i16(eff_unread(*old(self)))->Some_0.0 == r->Ok_0
+            && final(self).reader.unread() =~= eff_unread(*old(self)).skip(dec_i16(eff_unread(*old(self)))->Some_0.1),        // [C05.short.decoding] [C03.rt.decoder-premise]
+        old(self).reader.reliable() && dec_i16(eff_unread(*old(self))) is Some ==> r is Ok,                                     // [C05.short.every-variant-accepted]
+//@@ end
+
+//@@ fn file=serde_amqp/src/de.rs impl=`impl<'de, R: Read<'de>> Deserializer<R>` name=parse_u16
+//@@ qmark
+//@@ blockarms
+//@@ subst `|| Error::unexpected_eof("parse_u16")` => `|| -> (o: Error) { Error::unexpected_eof("parse_u16") }` rule=R18
+//@@ subst `self .reader .read_const_bytes() .map(u16::from_be_bytes) .map_err(Into::into)` => `(match self.reader.read_const_bytes() { Ok(b) => Ok(u16_from_be(b)), Err(e) => Err(e.err_into()) })` rule=R19
+//@@ spec
+    requires bounded(old(self).reader),
+    ensures
+        final(self).reader.wf(), final(self).elem_format_code == old(self).elem_format_code,
+        r is Ok ==> dec_u16(eff_unread(*old(self))) is Some && dec_u16(eff_unread(*old(self)))->Some_0.0 == r->Ok_0
+            && final(self).reader.unread() =~= eff_unread(*old(self)).skip(dec_u16(eff_unread(*old(self)))->Some_0.1),        // [C05.ushort.decoding] [C03.rt.decoder-premise]
+        old(self).reader.reliable() && dec_u16(eff_unread(*old(self))) is Some ==> r is Ok,                                     // [C05.ushort.every-variant-accepted]
+//@@ end
+
+//@@ fn file=serde_amqp/src/de.rs impl=`impl<'de, R: Read<'de>> Deserializer<R>` name=parse_i8
+//@@ qmark
+//@@ blockarms
+//@@ subst `|| Error::unexpected_eof("parse_i8")` => `|| -> (o: Error) { Error::unexpected_eof("parse_i8") }` rule=R18
+//@@ subst `let byte = self .reader .next() .map_err(Into::into) .and_then(|b| b.ok_or_else(|| Error::unexpected_eof("Expecting i8")))?;` => `let byte = (match self.reader.next() { Ok(Some(b)) => b, Ok(None) => return Err(Error::unexpected_eof("Expecting i8")), Err(e) => return Err(e.err_into()) });` rule=R19
+//@@ spec
+    requires bounded(old(self).reader),
+    ensures
+        final(self).reader.wf(), final(self).elem_format_code == old(self).elem_format_code,
+        r is Ok ==> dec_i8(eff_unread(*old(self))) is Some && dec_i8(eff_unread(*old(self)))->Some_0.0 == r->Ok_0
+            && final(self).reader.unread() =~= eff_unread(*old(self)).skip(dec_i8(eff_unread(*old(self)))->Some_0.1),        // [C05.byte.decoding] [C03.rt.decoder-premise]
+        old(self).reader.reliable() && dec_i8(eff_unread(*old(self))) is Some ==> r is Ok,                                     // [C05.byte.every-variant-accepted]
+//@@ end
+}
+
 // ================================================================ the descriptor of a described value (de.rs parse_described_identifier)
 /// what the visitor is given (visit_u64 / visit_str are outside this unit: a visitor either fails or returns a value that remembers what it was given)
 pub enum Ident { Code(u64), Name(Seq<char>) }
@@ -1053,6 +1147,29 @@ pub proof fn lemma_fixed_round_trip_u8(v: u8, e: IsArrayElement, rest: Seq<u8>)
     let s = seen(0x50, enc_u8(v, e), e);
     assert(s =~= seq![0x50u8, v]);
     assert((s + rest)[0] == 0x50 && (s + rest)[1] == v);
+}
+
+pub proof fn lemma_fixed_round_trip_i32(v: i32, e: IsArrayElement, rest: Seq<u8>)
+    ensures dec_i32(seen(0x71, enc_i32(v, e), e) + rest) == Some((v, seen(0x71, enc_i32(v, e), e).len() as int)),
+{
+    lemma_be32_inverse(v as u32);
+    let s = seen(0x71, enc_i32(v, e), e);
+    let u = s + rest;
+    if e is False && -128 <= v <= 127 {
+        assert(u[0] == 0x54 && u[1] == v as u8);
+        assert((v as u8) as i8 as i32 == v) by (bit_vector) requires -128 <= v <= 127;
+    } else {
+        assert(s =~= seq![0x71u8] + be32(v as u32)); assert(u[0] == 0x71); assert(u.subrange(1, 5) =~= be32(v as u32));
+        assert((v as u32) as i32 == v) by (bit_vector);
+    }
+}
+pub proof fn lemma_fixed_round_trip_i64(v: i64, rest: Seq<u8>)
+    ensures dec_i64(seq![0x81u8] + be64(v as u64) + rest) == Some((v, 9int)),
+{
+    lemma_be64_inverse(v as u64);
+    let u = seq![0x81u8] + be64(v as u64) + rest;
+    assert(u[0] == 0x81); assert(u.subrange(1, 9) =~= be64(v as u64));
+    assert((v as u64) as i64 == v) by (bit_vector);
 }
 
 } // verus!
